@@ -563,12 +563,20 @@ def inplace(it, op, cur, v):
     if isinstance(op, ast.BitOr) and isinstance(cur, SetV) and isinstance(v, SetV):
         cur.items.update(v.items)
         return cur
+    if isinstance(cur, K) and type(cur.v).__name__ == 'SymBuf' and isinstance(op, ast.Add):
+        from .rope import buf_store
+        buf_store(it, cur, len(cur.v), len(cur.v), v)
+        return cur
     if isinstance(cur, K) and isinstance(cur.v, bytearray):
         if isinstance(op, ast.Add):
             try:
                 cur.v.extend(to_const(v))
             except NotConst:
-                return None         # symbolic payload: the name is rebound to the concatenation term (aliases of the buffer are not tracked)
+                from .rope import buf_store, Rope
+                if Rope.of(it, v) is not None:
+                    buf_store(it, cur, len(cur.v), len(cur.v), v)        # the buffer keeps its identity, its content becomes symbolic
+                    return cur
+                return None         # unknown length: the name is rebound to the concatenation term (aliases of the buffer are not tracked)
             except TypeError:
                 raise RaiseEx('TypeError', 'bytearray +=')
             return cur
@@ -844,6 +852,10 @@ def bytearray_method(it, v, name, args, kw):
     try:
         ca = [to_const(a) for a in args]
     except NotConst:
+        from .rope import buf_store, Rope
+        if name == 'extend' and len(args) == 1 and Rope.of(it, args[0]) is not None:
+            buf_store(it, v, len(v.v), len(v.v), args[0])
+            return K(None)
         raise Fail(f'bytearray.{name} with a symbolic argument')
     if not hasattr(v.v, name):
         return None
@@ -857,7 +869,13 @@ def bytearray_method(it, v, name, args, kw):
 def to_const(v):
     """model value -> python constant (deep); NotConst when any part is symbolic or an object with identity semantics we must keep"""
     if isinstance(v, K):
+        if type(v.v).__name__ == 'SymBuf':
+            raise NotConst()
         return v.v
+    if type(v).__name__ == 'MemView':
+        if isinstance(v.target.v, bytearray):
+            return bytes(v.target.v[v.lo:v.hi])
+        raise NotConst()
     if isinstance(v, ListV):
         items = [to_const(x) for x in v.items]
         return tuple(items) if v.tup else items
@@ -1595,6 +1613,8 @@ def value_attr(it, v, a, n):
         return {'nbytes': K(len(v.v)), 'itemsize': K(1), 'format': K('B'), 'ndim': K(1), 'readonly': K(isinstance(v.v, bytes)), 'obj': v}[a]
     if isinstance(v, K) and isinstance(v.v, (bytes, bytearray)) and a in ('tobytes', 'release', 'toreadonly', 'cast', 'tolist', '__enter__', '__exit__'):
         return Bound(v, Native(lambda it_, args, kw, node, _a=a: val_method(it_, args[0], _a, args[1:], kw, node), 'val.' + a))
+    if isinstance(v, K) and type(v.v).__name__ == 'SymBuf':
+        return Bound(v, Native(lambda it_, args, kw, node, _a=a: val_method(it_, args[0], _a, args[1:], kw, node), 'val.' + a))
     if isinstance(v, K) and not hasattr(v.v, a):
         raise RaiseEx('AttributeError', f'{type(v.v).__name__} object has no attribute {a}', n)
     if isinstance(v, (K, PBits, ListV, DictV, SetV, Sym, Term, PInt, ExcV, Cond)):
@@ -1682,6 +1702,17 @@ def val_method(it, v, name, args, kw, node):
         if name == '__enter__':
             return v
         return K(bytes(v.v)) if name == 'tobytes' else v if name == 'toreadonly' else K(None)
+    if isinstance(v, K) and type(v.v).__name__ == 'SymBuf':
+        from .rope import buf_store, Rope
+        if name == 'extend' and len(args) == 1 and Rope.of(it, args[0]) is not None:
+            buf_store(it, v, len(v.v), len(v.v), args[0])
+            return K(None)
+        if name == 'copy' and not args:
+            return K(type(v.v)(v.v.rope))
+        if name == 'clear' and not args:
+            v.v = bytearray()
+            return K(None)
+        raise Fail(f'bytearray.{name} on a buffer with symbolic content is not modelled')
     if isinstance(v, K) and isinstance(v.v, bytearray):
         r = bytearray_method(it, v, name, args, kw)
         if r is not None:
@@ -1981,6 +2012,12 @@ def builtin(it, name, args, kw, n):
         return do_isinstance(it, args[0], args[1], n)
     if name == 'object' and not args and not kw:
         return K(object())         # a fresh object with nothing but an identity (sentinels)
+    if name in ('bytes', 'bytearray') and len(args) == 1 and (type(args[0]).__name__ == 'MemView' or (isinstance(args[0], K) and type(args[0].v).__name__ == 'SymBuf')):
+        from .rope import SymBuf, Rope
+        v = args[0].rope_value(it) if type(args[0]).__name__ == 'MemView' else args[0].v.rope.simplify()
+        if isinstance(v, K):
+            return K(bytes(v.v)) if name == 'bytes' else K(bytearray(v.v))
+        return v if name == 'bytes' else K(SymBuf(Rope.of(it, v)))
     if name == 'len':
         return do_len(it, args[0], n)
     if '.' in name and name.split('.')[0] in ('int', 'str', 'bytes', 'bytearray', 'list', 'dict', 'set', 'tuple', 'float', 'bool') and name.count('.') == 1 \
@@ -2156,6 +2193,9 @@ def builtin(it, name, args, kw, n):
                 from .front import FuncRef
                 return it.invoke(FuncRef(m, c.module, c), [args[0]] + (list(args[1:]) if dn == '__format__' else []), {})
     if name == 'memoryview' and args:
+        from .rope import MemView, SymBuf
+        if isinstance(args[0], K) and isinstance(args[0].v, (bytearray, SymBuf)):
+            return MemView(args[0], 0, len(args[0].v))        # a view of a mutable buffer shares it
         return args[0]
     if name == 'slice' and args:
         a3 = ([K(None)] + list(args) if len(args) == 1 else list(args)) + [K(None)] * 2
@@ -2260,7 +2300,20 @@ def builtin(it, name, args, kw, n):
         return tobytes_term(ba)
     if name in ('bytes', 'bytearray') and args:
         v = args[0]
+        from .rope import MemView, SymBuf, Rope
+        if isinstance(v, MemView):
+            v = v.rope_value(it)
+            if isinstance(v, K):
+                return K(bytes(v.v)) if name == 'bytes' else K(bytearray(v.v))
+        if isinstance(v, K) and isinstance(v.v, SymBuf):
+            v = v.v.rope.simplify()
+        if type(v).__name__ == 'Rope':
+            if name == 'bytearray':
+                return K(SymBuf(v))
+            return v
         if isinstance(v, (Sym, Term)):
+            if name == 'bytearray' and isinstance(bytes_len(it, v), K):
+                return K(SymBuf(Rope.of(it, v)))
             return v
         if isinstance(v, PInt):
             return Term('zeros', v)
